@@ -338,6 +338,9 @@ fn plan_base(prop: &str) -> Vec<Item> {
             }
             v.push(it("pipe_in_items", "pool=1,n=1,pat=1,conc=2,fin=1", Some(2), 3));
             v.push(it("pipe_drop_output", "pool=1,mode=0", Some(2), 3));
+            // the last owner is released inside a task's waker, on the thread that delivers the wake-up
+            v.push(it("drop_obj", "pool=1,state=6,dropper=4", Some(2), 3));
+            v.push(it("drop_obj", "pool=2,state=6,dropper=4", Some(1), 2));
             for pool in [0, 1] {
                 for dropper in [0, 3] {
                     v.push(it("drop_obj", &format!("pool={},state=5,dropper={}", pool, dropper), Some(2), 3));
@@ -602,6 +605,7 @@ fn plan_base(prop: &str) -> Vec<Item> {
                 v.push(it("panic_contain", &format!("pool={},ctx={},selfwake=1", pool, ctx), Some(if pool == 2 { 1 } else { 2 }), if pool == 2 { 2 } else { 3 }));
             }
             v.push(it("panic_contain", "pool=0,ctx=4", Some(2), 3));
+            v.push(it("panic_contain", "pool=0,ctx=5", Some(2), 3));
         }
         "C15x" => {}
         "C16" => {
@@ -666,6 +670,8 @@ fn plan_base(prop: &str) -> Vec<Item> {
             v.push(it("pipe_drop_output", "pool=1,mode=0", Some(1), 2));
             v.push(it("pipe_drop_output", "pool=1,mode=2", Some(1), 2));
             v.push(it("panic_contain", "pool=1,ctx=1", Some(1), 2));
+            v.push(it("panic_contain", "pool=0,ctx=5", Some(2), 3));
+            v.push(it("panic_contain", "pool=0,ctx=4", Some(1), 2));
             v.extend(prog_sweep(&[], &[1], Some(1), 2, None, 2));
             v.extend(prog_pairs(&[], "pool=1,busy=1,raw=0", false, None, 1, 1));
             v.extend(prog_sweep(&[], &[0, 2], None, 1, None, 1));
